@@ -26,6 +26,7 @@ def BOUNDS(ctx):
 
 
 SITES = {
+    "ghost_axioms": "contracts.common.wf_theory",
     "children_order": "trees.trees.children",
     "terminals_order": "trees.trees.terminals",
     "preorder": "trees.trees.preorder",
@@ -270,7 +271,77 @@ def c_export_numbering(ctx, spec):
     return None
 
 
+def c_ghost_axioms(ctx, spec):
+    """Validation of the theory the deductive contracts assume (contracts/common.py: wf_theory, terms_facts,
+    children_facts): on a real well-formed tree the ghost functions depth / anc / pos / C / C_idx / T / T_idx
+    exist and satisfy every axiom.  The ghost functions are computed here from the links only."""
+    trees = ctx.mod("trees")
+    root = tg.build(spec, trees)
+    nodes = tg.all_nodes(root)
+    par = {id(n): n.parent for n in nodes}
+    depth = {}
+    for n in nodes:
+        d, x = 0, n
+        while x.parent is not None:
+            x = x.parent
+            d += 1
+        depth[id(n)] = d
+
+    def anc(x, d):
+        while depth[id(x)] > d:
+            x = x.parent
+        return x
+    minleaf = {}
+
+    def leaves(n):
+        if not n.children:
+            return [n]
+        out = []
+        for c in n.children:
+            out.extend(leaves(c))
+        return sorted(out, key=lambda t: t.data["num"])
+    for n in nodes:
+        minleaf[id(n)] = leaves(n)[0].data["num"]
+    C = {id(n): sorted(n.children, key=lambda c: minleaf[id(c)]) for n in nodes}
+    for x in nodes:
+        p = x.parent
+        dx = depth[id(x)]
+        if not (dx >= 0 and anc(x, dx) is x and len(C[id(x)]) == len(x.children)):
+            return ("wf_theory (1)", tg.spec_str(spec))
+        if (p is None) != (dx == 0):
+            return ("wf_theory (2): parent None iff depth 0", dx)
+        if p is not None:
+            pos = [i for i, c in enumerate(p.children) if c is x]
+            cidx = [i for i, c in enumerate(C[id(p)]) if c is x]
+            if not (dx == depth[id(p)] + 1 and len(pos) == 1 and len(cidx) == 1):
+                return ("wf_theory (2): unique position in the parent's stored and ordered child lists", (pos, cidx))
+        for k, c in enumerate(x.children):
+            if c.parent is not x:
+                return ("wf_theory (3): children point back", k)
+        for d in range(0, dx + 1):
+            a = anc(x, d)
+            if depth[id(a)] != d or (d > 0 and anc(x, d - 1) is not a.parent):
+                return ("wf_theory (5): anc(x,d-1) == parent(anc(x,d)), depth(anc(x,d)) == d", d)
+        # terms_facts / children_facts
+        T = leaves(x)
+        nums = [t.data["num"] for t in T]
+        if not (len(T) >= 1 and all(not t.children and "num" in t.data for t in T)
+                and all(a < b for a, b in zip(nums, nums[1:])) and (x.children or T == [x])):
+            return ("terms_facts: T(x) non-empty, leaves with num, strictly increasing; T(leaf) == [leaf]", nums)
+        got = [t.data["num"] for t in trees.terminals(x)]
+        if got != nums:
+            return ("terminals(x) == T(x) = %s" % nums, got)
+        gotc = [minleaf[id(c)] for c in trees.children(x)]
+        if gotc != [minleaf[id(c)] for c in C[id(x)]]:
+            return ("children(x) == C(x)", gotc)
+        keys = [minleaf[id(c)] for c in C[id(x)]]
+        if len(set(keys)) != len(keys):
+            return ("children_facts: ordering keys of siblings are distinct", keys)
+    return None
+
+
 CLAUSES = {
+    "ghost_axioms": c_ghost_axioms,
     "children_order": c_children_order, "terminals_order": c_terminals_order,
     "preorder": c_preorder, "postorder": c_postorder,
     "right_sibling": c_right_sibling, "left_sibling": c_left_sibling,
@@ -278,7 +349,7 @@ CLAUSES = {
     "levels": c_levels, "export_numbering": c_export_numbering,
 }
 
-ORDER = ["children_order", "terminals_order", "preorder", "postorder", "right_sibling",
+ORDER = ["ghost_axioms", "children_order", "terminals_order", "preorder", "postorder", "right_sibling",
          "left_sibling", "siblings_inverse", "dominance", "lca", "levels", "export_numbering"]
 
 
